@@ -225,7 +225,9 @@ def _entry(rng, base, good=True):
     elif bad == 'basecode':
         e['t'] = ['code', base]
     elif bad == 'badcode':
-        e['t'] = ['badcode', rng.choice(['XXX', 'usd', 'kg', ''])]
+        # not a registered currency: garbage, lower case, a unit of another type, and valid ISO
+        # codes that have NOT been registered (an update must not register them: seeded C16-f)
+        e['t'] = ['badcode', rng.choice(['XXX', 'usd', 'kg', '', 'CHF', 'NOK', 'CHF'])]
     elif bad == 'nocur':
         e['t'] = ['nocur', rng.choice(['int', 'none'])]
     elif bad == 'badamt':
@@ -291,7 +293,8 @@ def gen_script(rng, with_identity=False, tiny=False):
         if rng.random() < 0.12:
             es.insert(rng.randint(0, len(es)), _entry(rng, base, good=False))
         dm = case_dm if rng.random() < 0.8 else rng.choice(W.MODES)
-        steps.append({'v': v, 'es': es, 'dm': dm})
+        steps.append({'v': v, 'es': es, 'dm': dm,
+                      'container': rng.choice(['list', 'list', 'tuple', 'gen', 'iter'])})
     dflt = rng.choice(pool)
     dates = rng.sample(pool, min(3, len(pool)))
     effs = [list(d) for d in dates] + [None]
@@ -310,7 +313,8 @@ def gen_script(rng, with_identity=False, tiny=False):
         t = rng.choice([c for c in CURS if c != u])
         probes.append({'u': u, 't': t, 'eff': rng.choice(effs)})
     return {'base': base, 'dflt': list(dflt), 'qdm': case_dm, 'steps': steps,
-            'probes': probes, 'queries': queries}
+            'probes': probes, 'queries': queries,
+            'dflt2': list(rng.choice([p for p in pool if p != dflt] or [dflt]))}
 
 
 def gen_script_rejected_first(rng):
@@ -336,6 +340,37 @@ def gen_script_rejected_first(rng):
     return sc
 
 
+def gen_script_clock(rng):
+    """rates for two different periods, look-ups WITHOUT an explicit date before and after the
+    configured default date moves from the first period to the second (or to a period without
+    rates): the answer must follow the callable (seeded C11-g: memoised cross rates)"""
+    sc = gen_script(rng)
+    kind = rng.choice(['year', 'month', 'day', 'day'])
+    d1, d2, d3 = [tuple(p) for p in rng.sample(BOUNDARY, 3)]
+    while len({_period_key(kind, d) for d in (d1, d2, d3)}) < 3:
+        d1, d2, d3 = [tuple(p) for p in rng.sample(BOUNDARY, 3)]
+    base = sc['base']
+    steps = []
+    for d in (d1, d2):
+        es = []
+        for c in [c for c in CURS if c != base]:
+            e = _entry(rng, base)
+            e['t'] = ['cur', c]
+            es.append(e)
+        steps.append({'v': _spell(rng, kind, d), 'es': es, 'dm': sc['qdm'], 'container': 'list'})
+    sc['steps'] = steps
+    sc['dflt'], sc['dflt2'] = list(d1), list(rng.choice([d2, d2, d3]))
+    sc['queries'] = [{'u': u, 't': t, 'eff': None, 'amt': rng.choice(AMOUNTS), 'call': True}
+                     for u in CURS for t in CURS if u != t]
+    for q in sc['probes']:
+        q['eff'] = rng.choice([None, list(d1), list(d2)])
+    return sc
+
+
+def _period_key(kind, d):
+    return {'year': d[:1], 'month': d[:2], 'day': d[:3]}[kind]
+
+
 def gen_cases(rng, tier):
     # the pure-Python decimalfp needs ~15 ms for every non-terminating division,
     # i.e. 30..150 ms per inverse / cross rate: the script count is bounded by that
@@ -344,6 +379,7 @@ def gen_cases(rng, tier):
     tiny = _known('C11-derived-rate-unrepresentable')
     cases = [gen_script(rng, with_identity=ident) for _ in range(n)]
     cases += [gen_script_rejected_first(rng) for _ in range(max(8, n // 10))]
+    cases += [gen_script_clock(rng) for _ in range(max(8, n // 10))]
     if tiny:
         cases += [gen_script(rng, with_identity=ident, tiny=True) for _ in range(max(8, n // 20))]
     return cases
@@ -434,9 +470,11 @@ def impl_run(case):
     dflt = _dt.date(*case['dflt'])
     calls = [0]
 
+    clock = [dflt]
+
     def get_dflt():
         calls[0] += 1
-        return dflt
+        return clock[0]
     conv = MoneyConverter(units[case['base']], get_dflt)
 
     def eff(e):
@@ -452,13 +490,23 @@ def impl_run(case):
                 out.append(_obs_rate(lambda: conv.get_rate(units[p['u']], units[p['t']],
                                                            eff(p['eff']))))
         return out
-    res = {'init': probes(), 'steps': [], 'queries': []}
+    res = {'init': probes(), 'steps': [], 'queries': [],
+           'currencies': sorted(u.symbol for u in Money.units())}
     for s in case['steps']:
         W.set_mode(s['dm'])
         val = _py_validity(s['v'])
         es = [_py_entry(e, units) for e in s['es']]
+        # rate_specs is documented as an Iterable: also a tuple, a generator, an iterator
+        shape = s.get('container', 'list')
+        if shape == 'tuple':
+            es = tuple(es)
+        elif shape == 'gen':
+            es = (e for e in list(es))
+        elif shape == 'iter':
+            es = iter(list(es))
         exc = W.guarded(lambda: conv.update(val, es))
-        res['steps'].append({'exc': exc, 'after': probes()})
+        res['steps'].append({'exc': exc, 'after': probes(),
+                             'currencies': sorted(u.symbol for u in Money.units())})
     W.set_mode(case['qdm'])
     for q in case['queries']:
         u, t, e = units[q['u']], units[q['t']], eff(q['eff'])
@@ -470,6 +518,15 @@ def impl_run(case):
                      if q.get('call', True) else None),
         })
     res['dflt_calls'] = calls[0]
+    # the configured callable now returns ANOTHER date: look-ups without an explicit date
+    # must follow it (and nothing else may change)
+    res['queries2'] = []
+    if case.get('dflt2'):
+        clock[0] = _dt.date(*case['dflt2'])
+        for q in case['queries']:
+            if q['eff'] is None:
+                u, t = units[q['u']], units[q['t']]
+                res['queries2'].append({'rate': _obs_rate(lambda: conv.get_rate(u, t))})
     return res
 
 
@@ -756,6 +813,9 @@ def oracle(case, r):
     if any(o['k'] != 'none' for o in prev):
         return f"fresh converter reports a rate: {prev}"
     for i, (s, o) in enumerate(zip(case['steps'], r['steps'])):
+        if 'currencies' in o and o['currencies'] != r.get('currencies'):
+            return (f"step {i}: an update of the converter changed the declared currencies: "
+                    f"{r.get('currencies')} -> {o['currencies']}")
         acc = oc.update(s)
         if acc is None:
             return None              # spelling outside the documented ones: no verdict
@@ -789,6 +849,14 @@ def oracle(case, r):
     if r['dflt_calls'] == 0 and oc.kind is not None and \
             any(q['eff'] is None for q in case['queries']):
         return "default effective date was needed but the configured callable was never called"
+    if case.get('dflt2'):
+        oc.dflt = tuple(case['dflt2'])
+        qs = [q for q in case['queries'] if q['eff'] is None]
+        for q, o in zip(qs, r.get('queries2', [])):
+            msg = _cmp_rate(oc.rate(case['qdm'], q['u'], q['t'], None), o['rate'])
+            if msg and not classify(case, r, msg):
+                return (f"query {q} after the default effective date moved from {case['dflt']} "
+                        f"to {case['dflt2']}: {msg}")
     return None
 
 
